@@ -24,7 +24,7 @@ RULE = ('inputs: corpus and Annex A derivations biased towards nesting (blocks, 
 ASSUMPTIONS = ['structural depth of the output is computed from the refjs tree of the output itself; continuation lines '
                'of multi-line string / comment tokens and lines that start with a comment are exempt']
 BUDGET_S = {'quick': 60, 'thorough': 700}
-REQUIRED_HITS = ['pretty_print', 'used_printer', 'shape', 'deep_shape', 'lines_checked', 'Indentator.indent', 'Indentator.dedent', 'level_zero_at_end']
+REQUIRED_HITS = ['pretty_print', 'used_printer', 'shape', 'deep_shape', 'lines_checked', 'Indentator.indent', 'Indentator.dedent', 'level_zero_at_end', 'indent_from_dispatcher']
 FLOOR = {'quick': 1500, 'thorough': 20000}
 
 INDENTS = ['  ', '\t', '', ' ', '   ', '    ', ' \t']
@@ -184,7 +184,17 @@ class Levels(object):
 from vk.printing import used_printer
 
 
-def check(ctx, levels, text, indents, with_comments, origin, history=False):
+def dispatcher_printer(indent):
+    import functools
+    from calmjs.parse import rules
+    from calmjs.parse.unparsers.base import BaseUnparser
+    from calmjs.parse.unparsers.es5 import definitions
+    from calmjs.parse.unparsers.walker import Dispatcher
+    return BaseUnparser(definitions, rules=(rules.indent(),),
+                        dispatcher_cls=functools.partial(Dispatcher, indent_str=indent))
+
+
+def check(ctx, levels, text, indents, with_comments, origin, history=False, force_dispatcher=False):
     from calmjs.parse.unparsers.es5 import pretty_print
     p = printing.prepare(ctx, text, with_comments)
     if p is None:
@@ -193,12 +203,18 @@ def check(ctx, levels, text, indents, with_comments, origin, history=False):
     for k, indent in enumerate(indents):
         used = history and k == 0
         printer = used_printer(indent) if used else None
+        # the indentation string is also a Dispatcher setting, which the stock ruleset rules.indent() documents
+        # it defers to: the last string of every case is supplied that way
+        via_dispatcher = not used and (force_dispatcher or (k == len(indents) - 1 and k > 0))
         levels.begin()
         try:
             if used:
                 # the statement is about every pretty-printed output, also that of a printer object used before
                 out = ''.join(chunk.text for chunk in printer(p.tree))
                 ctx.hit('used_printer')
+            elif via_dispatcher:
+                out = ''.join(chunk.text for chunk in dispatcher_printer(indent)(p.tree))
+                ctx.hit('indent_from_dispatcher')
             else:
                 out = pretty_print(p.tree, indent_str=indent)
         except RecursionError:
@@ -230,7 +246,8 @@ def check(ctx, levels, text, indents, with_comments, origin, history=False):
             if mech in seen:
                 continue
             seen.add(mech)
-            ctx.violation(mech, {'text': text, 'indent': indent, 'with_comments': with_comments, 'history': used},
+            ctx.violation(mech, {'text': text, 'indent': indent, 'with_comments': with_comments, 'history': used,
+                           'via_dispatcher': via_dispatcher},
                           '%s\nindent %r, comment capture %s\ninput: %r\noutput: %r' % (
                               detail, indent, with_comments, text[:200], out[:300]))
         if viol:
@@ -303,7 +320,7 @@ def replay(ctx, witness):
     levels = Levels(ctx).install()
     try:
         check(ctx, levels, witness['text'], [witness.get('indent', '  ')], bool(witness.get('with_comments')), 'replay',
-              history=bool(witness.get('history')))
+              history=bool(witness.get('history')), force_dispatcher=bool(witness.get('via_dispatcher')))
     finally:
         levels.remove()
 
